@@ -64,9 +64,16 @@ class Job:
         self.part = part                # (i, n): this job checks the i-th of n shares of the obligations
 
     def workdir(self):
-        d = os.path.join(WORK, re.sub(r"[^A-Za-z0-9_.-]", "_", self.name))
+        # one directory per job AND per process: two check commands running at the same time (different
+        # properties sharing a job) must not build into the same directory
+        base = re.sub(r"[^A-Za-z0-9_.-]", "_", self.name)
+        d = os.path.join(WORK, base if os.environ.get("VERIF_KEEP_WORK") else "%s.%d" % (base, os.getpid()))
         os.makedirs(d, exist_ok=True)
         return d
+
+    def cleanup(self):
+        if not os.environ.get("VERIF_KEEP_WORK"):
+            shutil.rmtree(self.workdir(), ignore_errors=True)
 
 
 def _limits(mem_gb):
@@ -266,6 +273,13 @@ def parse_cbmc_json(path):
 
 
 def run_job(job, use_cache=True):
+    try:
+        return _run_job(job, use_cache)
+    finally:
+        job.cleanup()
+
+
+def _run_job(job, use_cache=True):
     """Build and run one job. Returns a result dict (JSON-serialisable)."""
     t0 = time.time()
     log = []
